@@ -3,5 +3,5 @@ EXTENDS Mapper, Json
 CONSTANT Tier
 Cols == IF Tier = "quick" THEN {c \in ColTypes : c.max \in {1, -1}} ELSE ColTypes
 EmitTypes(x) == \A c \in ColTypes : \A g \in GoTypes \cup {NativeType(c)} : PrintT(<<"CASE", ToJson([mode |-> "mtype", col |-> c, gotype |-> g])>>)
-EmitVals(x) == \A c \in Cols : \A v \in ValuesOf(c) : PrintT(<<"CASE", ToJson([mode |-> "map", col |-> c, gotype |-> NativeType(c), value |-> v])>>)
+EmitVals(x) == \A c \in Cols : \A v \in (IF Tier = "quick" THEN ValuesOf(c) ELSE ValuesOf(c) \cup DeepValuesOf(c)) : PrintT(<<"CASE", ToJson([mode |-> "map", col |-> c, gotype |-> NativeType(c), value |-> v])>>)
 =============================================================================
